@@ -29,8 +29,9 @@ ASSUMPTIONS = [
 ]
 
 CTXS = prog.CLS_NAMES
-POSITIONS = ["from", "join", "in", "not_in", "cmp", "select", "cte", "insert_select", "create_as", "setop_left", "setop_right", "having_cmp", "setop_in_from"]
-OUT = {"OT": ["tbl", "outer_t", None, None]}
+POSITIONS = ["from", "join", "in", "not_in", "cmp", "select", "cte", "insert_select", "create_as", "setop_left", "setop_right", "having_cmp", "setop_in_from",
+             "in_joined", "select_in", "select_cmp", "select_fn", "where_fn", "where_arith", "on_in"]
+OUT = {"OT": ["tbl", "outer_t", None, None], "OU": ["tbl", "outer_u", None, None]}
 
 
 @st.composite
@@ -56,9 +57,26 @@ def outer_program(cls, pos, inner, alias):
         steps = [["from_", [["src", "OT"]]], ["select", [OA]], ["where", [["in", OA, q]]]]
     elif pos == "not_in":
         steps = [["from_", [["src", "OT"]]], ["select", [OA]], ["where", [["not", ["in", OA, q], "cls"]]]]
+    elif pos == "in_joined":
+        # the enclosing query qualifies its columns (join): nothing of that may reach the embedded query
+        OB = ["col", "OU", "ob"]
+        steps = [["from_", [["src", "OT"]]], ["join", [["src", "OU"], ["enum", "JoinType", "inner"]], {}, ["on", [["eq", OA, OB]]]], ["select", [OA]], ["where", [["in", OB, q]]]]
+    elif pos == "on_in":
+        OB = ["col", "OU", "ob"]
+        steps = [["from_", [["src", "OT"]]], ["join", [["src", "OU"], ["enum", "JoinType", "inner"]], {}, ["on", [["and", ["eq", OA, OB], ["in", OB, q]]]]], ["select", [OA]]]
+    elif pos == "select_in":
+        steps = [["from_", [["src", "OT"]]], ["select", [OA, ["as", ["in", OA, q], "flag"]]]]
+    elif pos == "select_cmp":
+        steps = [["from_", [["src", "OT"]]], ["select", [["gt", OA, q]]]]
+    elif pos == "select_fn":
+        steps = [["from_", [["src", "OT"]]], ["select", [["as", ["fn", "Coalesce", [q, ["raw", 0]]], "cf"]]]]
+    elif pos == "where_fn":
+        steps = [["from_", [["src", "OT"]]], ["select", [OA]], ["where", [["eq", ["fn", "Coalesce", [q, ["raw", 0]]], OA]]]]
+    elif pos == "where_arith":
+        steps = [["from_", [["src", "OT"]]], ["select", [OA]], ["where", [["gt", ["add", OA, q], ["raw", 0]]]]]
     elif pos == "setop_in_from":
         other = {"cls": "inherit", "sources": {}, "steps": [["from_", [["src", "OT"]]], ["select", [OA]]]}
-        so = dict(inner, steps=inner["steps"] + [["union_all", [["q", other]]]])
+        so = dict(inner, steps=inner["steps"] + ([["as_", [["py", alias]]]] if alias else []) + [["union_all", [["q", other]]]])
         steps = [["from_", [["q", so]]], ["select", [["py", "*"]]]]
     elif pos == "cmp":
         steps = [["from_", [["src", "OT"]]], ["select", [OA]], ["where", [["gt", OA, q]]]]
@@ -179,9 +197,9 @@ def check(case, pos, par):
     else:
         if pos == "setop_in_from" and (is_setop or case["ncols"] != 1):
             return [("__na__", "")]
-        p = outer_program(cls, pos, inner, case["alias"] if pos != "setop_in_from" else None)
+        p = outer_program(cls, pos, inner, case["alias"])
         need_parens = True if pos != "setop_in_from" else cls not in ("mysql", "sqlite")
-        alias = case["alias"] if pos != "setop_in_from" else None
+        alias = case["alias"] if pos != "setop_in_from" else None  # in a set operation the operand's alias defines nothing
     try:
         outer = prog.build_program(p)
         s_out = render(outer, cls, par)
@@ -229,6 +247,8 @@ def check(case, pos, par):
                 why = "alias_leaked"
                 continue
         else:
+            if pos == "select_in" and nxt is not None and nxt.kind == "qid" and nxt.value == "flag":
+                nxt = None  # the alias of the enclosing IN predicate, not of the embedded query
             if nxt is not None and nxt.kind == "qid" and not (pos == "create_as"):
                 why = "alias_leaked"
                 continue
@@ -255,6 +275,8 @@ def check_case(case):
 def valid_case(case):
     try:
         prog.build_program(dict(case["inner"], cls=case["cls"], sources=dict(gen.SOURCES, **OUT)))
+        if not any(s[0] == "from_" for s in case["inner"]["steps"]):
+            return False  # the generator always gives the inner query a FROM clause
         return case["pos"] in POSITIONS and case["cls"] in CTXS
     except (Exception, HarnessError):
         return False
